@@ -718,18 +718,22 @@ func (en *env) call(x *ast.CallExpr, want types.Type) TV {
 			if !ok || en.old == nil || len(sv.Base.Idxs) != 1 {
 				en.errf("visible_unchanged() needs a slice and an entry state")
 			}
-			es := r.scalarSort(sv.Base.T)
-			if es == nil {
-				en.errf("visible_unchanged(): non-scalar elements")
+			var cells []leafCell
+			if !r.leafCells(sv.Base.T, "", &cells) {
+				en.errf("visible_unchanged(): elements of type %s", sv.Base.T)
 			}
-			heap := sv.Base.Heap + "[]"
-			hs := r.heapSort(2, es)
-			now := en.state().getPV(heap, hs)
-			entry := en.old.getPV(heap, hs)
 			entryAlloc := en.old.getPV("$alloc", smt.Int)
-			rv := c.BoundVar("ref", smt.Int)
-			body := c.Implies(c.And(c.Op(">=", nil, rv, c.IntC(0)), c.Op("<", nil, rv, entryAlloc)), c.Eq(c.Select(now, rv), c.Select(entry, rv)))
-			return TV{V: Scalar{c.Forall([]*smt.Term{rv}, body, []*smt.Term{c.Select(now, rv)})}, T: types.Typ[types.Bool]}
+			var parts []*smt.Term
+			for _, lc := range cells {
+				heap := sv.Base.Heap + "[]" + lc.suffix
+				hs := r.heapSort(2, lc.sort)
+				now := en.state().getPV(heap, hs)
+				entry := en.old.getPV(heap, hs)
+				rv := c.BoundVar("ref", smt.Int)
+				body := c.Implies(c.And(c.Op(">=", nil, rv, c.IntC(0)), c.Op("<", nil, rv, entryAlloc)), c.Eq(c.Select(now, rv), c.Select(entry, rv)))
+				parts = append(parts, c.Forall([]*smt.Term{rv}, body, []*smt.Term{c.Select(now, rv)}))
+			}
+			return TV{V: Scalar{c.And(parts...)}, T: types.Typ[types.Bool]}
 		case "payload":
 			// payload(x): the reference boxed in interface value x (identity of the dynamic value)
 			a := en.eval(x.Args[0], nil)
@@ -1055,15 +1059,26 @@ func (en *env) quantifier(forall bool, x *ast.CallExpr) TV {
 		// off + (r+1) no longer matches that shape. Quantify over the array position itself instead:
 		// i := j - off, (+ off i) := j (only when every read that mentions i has this one shape).
 		g := c.And(guards...)
+		var orig *smt.Term
+		if forall {
+			orig = c.Forall(append([]*smt.Term(nil), bound...), c.Implies(g, body))
+		}
+		mixed := false
 		for k, bv := range bound {
 			if bv.Sort != smt.Int {
 				continue
 			}
-			if nb, nbody, ng, ok := shiftIndexVar(c, bv, body, g); ok {
+			if nb, nbody, ng, mx, ok := shiftIndexVar(c, bv, body, g); ok {
 				bound[k], body, g = nb, nbody, ng
+				mixed = mixed || mx
 			}
 		}
 		guards = []*smt.Term{g}
+		if mixed && forall {
+			// reads at the variable itself (ghost maps) and reads at off+variable occur together: keep both
+			// forms (they are equivalent), each offers the solver the trigger the other lost
+			return TV{V: Scalar{c.And(orig, c.Forall(bound, c.Implies(g, body)))}, T: types.Typ[types.Bool]}
+		}
 	}
 	if forall {
 		return TV{V: Scalar{c.Forall(bound, c.Implies(c.And(guards...), body), pats...)}, T: types.Typ[types.Bool]}
@@ -1350,7 +1365,7 @@ func (en *env) evalGoalParts(e ast.Expr) []*smt.Term {
 // shiftIndexVar: if every array read in body/guard whose index mentions the bound variable bv has the index
 // (+ O bv) for one and the same O (free of bv), returns the formula re-expressed over a new bound variable
 // j standing for O + bv:  (+ O bv) := j,  bv := j - O.
-func shiftIndexVar(c *smt.Ctx, bv, body, guard *smt.Term) (nb, nbody, nguard *smt.Term, ok bool) {
+func shiftIndexVar(c *smt.Ctx, bv, body, guard *smt.Term) (nb, nbody, nguard *smt.Term, mixed, ok bool) {
 	mentions := map[*smt.Term]bool{}
 	var has func(t *smt.Term) bool
 	has = func(t *smt.Term) bool {
@@ -1399,11 +1414,15 @@ func shiftIndexVar(c *smt.Ctx, bv, body, guard *smt.Term) (nb, nbody, nguard *sm
 			if o != nil && termMentions(o, bv) {
 				o = nil
 			}
-			if o == nil || (off != nil && off != o) {
+			if ix == bv {
+				// a read at bv itself (ghost maps, zero-offset slices) does not prevent the shift
+				mixed = true
+			} else if o == nil || (off != nil && off != o) {
 				good = false
 				return
+			} else {
+				off = o
 			}
-			off = o
 		}
 		for _, a := range t.Args {
 			walk(a)
@@ -1412,7 +1431,7 @@ func shiftIndexVar(c *smt.Ctx, bv, body, guard *smt.Term) (nb, nbody, nguard *sm
 	walk(body)
 	walk(guard)
 	if !good || off == nil {
-		return nil, nil, nil, false
+		return nil, nil, nil, false, false
 	}
 	nb = c.BoundVar(strings.SplitN(bv.Name, "?", 2)[0]+"@", smt.Int)
 	m := map[*smt.Term]*smt.Term{
@@ -1420,7 +1439,7 @@ func shiftIndexVar(c *smt.Ctx, bv, body, guard *smt.Term) (nb, nbody, nguard *sm
 		c.Op("+", nil, bv, off): nb,
 		bv:                      c.Op("-", nil, nb, off),
 	}
-	return nb, c.Subst(body, m), c.Subst(guard, m), true
+	return nb, c.Subst(body, m), c.Subst(guard, m), mixed, true
 }
 
 // termMentions: v occurs anywhere in t.
